@@ -118,7 +118,7 @@ TABLE += [
       funcs=[('csrc_count', 'uint8_t'), ('extension_bit', 'uint8_t'), ('padding_bit', 'uint8_t'), ('padding_size', 'uint8_t'), ('extension_length', 'uint16_t')],
       rules='rule: small_uint<4> csrc_count_ ==> uint8_t csrc_count_\nrule: this->csrc_ids_\\.push_back\\(csrc_id\\); ==> (void)csrc_id;\nrule: this->ext_data_\\.push_back\\(data\\); ==> (void)data;',
       loops='loop 0:\n__CPROVER_assigns(i, stream)\n__CPROVER_loop_invariant(i <= csrc_count_ && __CPROVER_same_object(stream.buffer_, buffer) && __CPROVER_POINTER_OFFSET(stream.buffer_) >= 0 && __CPROVER_POINTER_OFFSET(stream.buffer_) <= total_sz && stream.size_ <= total_sz && __CPROVER_POINTER_OFFSET(stream.buffer_) + stream.size_ <= total_sz)\n__CPROVER_decreases(csrc_count_ - i)\nend\nloop 1:\n__CPROVER_assigns(i, stream)\n__CPROVER_loop_invariant(i <= 65535 && __CPROVER_same_object(stream.buffer_, buffer) && __CPROVER_POINTER_OFFSET(stream.buffer_) >= 0 && __CPROVER_POINTER_OFFSET(stream.buffer_) <= total_sz && stream.size_ <= total_sz && __CPROVER_POINTER_OFFSET(stream.buffer_) + stream.size_ <= total_sz)\n__CPROVER_decreases(65536 - i)\nend',
-      mutant='mutant: if \\(padding_size\\(\\) > data_size\\) \\{\\s*throw malformed_packet\\(\\);\\s*\\} ==> '),
+      ),
  dict(cls='PPI', src='src/ppi.cpp', hdr='include/tins/ppi.h', structs=['ppi_header'], members='ppi_header header_;', news=['Dot3', 'EthernetII', 'RadioTap', 'Loopback', 'SLL'],
       funcs=[('length', 'uint16_t'), ('dlt', 'uint32_t')], xreplace='Internals_is_dot3 PPI_parse_80211',
       predecl='enum { DLT_NULL = 0, DLT_EN10MB = 1, DLT_IEEE802_11 = 105, DLT_LINUX_SLL = 113, DLT_IEEE802_11_RADIO = 127 }; /* libpcap link types (pcap/dlt.h) */\n_Bool Internals_is_dot3(const uint8_t* ptr, size_t sz)\n__CPROVER_requires(__CPROVER_r_ok(ptr, sz))\n__CPROVER_assigns()\n;\nstruct PPI_s; void PPI_parse_80211(struct PPI_s* this, const uint8_t* buffer, uint32_t total_sz)\n__CPROVER_requires(__CPROVER_r_ok(buffer, total_sz))\n__CPROVER_assigns()\n;',
@@ -133,7 +133,7 @@ TABLE += [
       predecl=EAPOL_CONSTS, news=['RawPDU'], inits='inits: lower', memberlist='members: header_ key_',
       xfuncs='//@ func include/tins/eapol.h RC4EAPOL::key_length match "key_length() const"\nsig: static uint16_t RC4EAPOL_key_length(const RC4EAPOL* this)\nclass: RC4EAPOL include/tins/eapol.h\nmembers: header_\n//@ endfunc',
       rules='rule: IMS_read_buf\\(&stream, this->key_, RC4EAPOL_key_length\\(this\\)\\) ==> IMS_read_vec(&stream, RC4EAPOL_key_length(this))',
-      mutant='mutant: stream\\.size\\(\\) >= key_length\\(\\) ==> true'),
+      ),
  dict(cls='RSNEAPOL', src='src/eapol.cpp', hdr='include/tins/eapol.h', structs=['eapol_header', 'rsn_eapol_header'], members='eapol_header base_header_; rsn_eapol_header header_;',
       predecl=EAPOL_CONSTS, news=['RawPDU'], inits='inits: lower', memberlist='members: header_ key_',
       xfuncs='//@ func include/tins/eapol.h RSNEAPOL::wpa_length match "wpa_length() const"\nsig: static uint16_t RSNEAPOL_wpa_length(const RSNEAPOL* this)\nclass: RSNEAPOL include/tins/eapol.h\nmembers: header_\n//@ endfunc',
